@@ -78,6 +78,10 @@ blockScan:
 	}
 
 	// Add return label at correct position and reverse it.
+	if returnLabelStart+returnLabel.EncodedSize() > len(block) {
+		// The block has no room for the return label.
+		return 0, ErrBufTooSmall
+	}
 	labelSlot := block[returnLabelStart : returnLabelStart+returnLabel.EncodedSize()]
 	binary.PutUvarint(labelSlot, uint64(returnLabel))
 	slices.Reverse[[]byte, byte](labelSlot)
